@@ -724,7 +724,7 @@ def op_fill(run):
         sl = a_slide(run)
         holder = r.choice([sl, sl, sl.slide_layout, sl.slide_layout.slide_master])  # masters carry p:bgRef
         fill = holder.background.fill
-    k = r.choice(["solid", "gradient", "patterned", "background", "fore_rgb", "fore_theme", "gradient_angle", "stops", "pattern", "back_rgb"])
+    k = r.choice(["solid", "gradient", "patterned", "background", "fore_rgb", "fore_theme", "gradient_angle", "stops", "pattern", "back_rgb", "colors_read", "color_bad"])
     if k == "solid":
         fill.solid()
         fill.fore_color.rgb = gen.rgb(r)
@@ -752,6 +752,16 @@ def op_fill(run):
         fill.patterned()
         fill.pattern = r.choice([m for m in MSO_PATTERN if m.xml_value])
         fill.back_color.rgb = gen.rgb(r)
+    elif k == "colors_read":
+        # the colours of a fresh pattern / solid fill are only looked at (accessing them may create their elements: what is
+        # created must be complete)
+        r.choice([fill.patterned, fill.solid])()
+        _ = (fill.fore_color.type, getattr(fill, "back_color", None) and fill.back_color.type)
+    elif k == "color_bad":
+        # ... or given a value that is refused with the documented ValueError
+        fill.patterned()
+        which = r.choice(["back_color", "fore_color"])
+        getattr(fill, which).rgb = r.choice(["FF0000", (1, 2, 3)])
     else:
         fill.back_color.rgb = gen.rgb(r)
     return "%s.%s" % (target, k)
@@ -1169,7 +1179,7 @@ PROFILES = {
         "save_stream": 10, "save_path": 2, "save_same_stream": 4, "save_same_path": 2, "reopen": 4, "core_prop": 2, "add_slide": 8, "slide_index_bad": 1, "slides_get": 2, "read_slides": 4,
         "remove_layout": 3, "drop_layout_readd": 4, "add_shape": 3, "add_textbox": 3, "add_picture": 8, "add_picture_notimage": 1, "add_connector": 1, "add_group": 2,
         "add_chart": 6, "add_table": 2, "add_movie": 4, "add_ole": 4, "ph_insert": 4, "run_hyperlink": 8, "click_action": 8, "chart_replace": 5,
-        "notes": 5, "text_assign": 2, "traverse": 2, "add_freeform": 1, "table": 1, "hyperlink_share": 6, "hyperlink_cycle": 5,
+        "notes": 8, "text_assign": 2, "traverse": 2, "add_freeform": 1, "table": 1, "hyperlink_share": 6, "hyperlink_cycle": 5,
     },
     # C03: XML mutators
     "xml": {
